@@ -10,9 +10,12 @@
   * snap distances are decided exactly: |p − q|² (exact) against (2·S(r/2) + 2^-50)² where S is the degree-9
     Taylor upper bound of sin (error < 1e-10 relative for r ≤ 1.3); 2^-50 covers the non-unit length of p, q.
   * "lands on the grid": cell centres are decided exactly (bit-exact recomputation of `CellID.Point()`); for integer
-    lat-lng sites the harness rounds Go's `LatLngFromPoint(q)·10^e` (degrees) to integers (klat, klng) and recomputes
-    the site `PointFromLatLng(klat/10^e°, klng/10^e°)` with Go's libm; the oracle checks |q − site| ≤ 2^-49 exactly
-    (a grid of 10^-10 degrees has a spacing of 1.7e-12 rad, far above 2^-49) and the integer ranges.
+    lat-lng sites the harness restates SnapPoint through the public API (in = LatLngFromPoint(p), k = Round(in°·10^e),
+    out = LatLngFromDegrees(k·(1/10^e)), site = PointFromLatLng(out)); the oracle recomputes in -> (k, out) bit-exactly with
+    `snapDegreeCoord` (a difference is a `diff`), compares q with site bit-exactly (`diff`) and judges |q − site| ≤ 2^-49
+    and the integer ranges (`propfail snapi-off-grid`; a grid of 10^-10 degrees has a spacing of 1.7e-12 rad, far above 2^-49).
+  * `c20scaled`: the threshold (2 sin(x/2))² of the tessellator is enclosed with Taylor bounds of sin at the bit-exact
+    argument x = scaleFactor · max(tol, 1e-13), relative slack 2^-48.
   * projection round trips: see `projBound`.
 -/
 import Oracle.Basic
@@ -208,17 +211,38 @@ def handle (op : String) (args res : List String) : Option String :=
     let p ← parseV3? x y z
     let e ← parseNat? e
     match res with
-    | [q, r, klat, klng, site] =>
-      let q ← parseF3? q; let r ← parseF64? r; let klat ← parseInt? klat; let klng ← parseInt? klng
+    | [q, r, inLat, inLng, klat, klng, outLat, outLng, site] =>
+      let q ← parseF3? q; let r ← parseF64? r
+      let inLat ← parseF64? inLat; let inLng ← parseF64? inLng
+      let klat ← parseInt? klat; let klng ← parseInt? klng
+      let outLat ← parseF64? outLat; let outLng ← parseF64? outLng
       let site ← parseF3? site
+      -- model of the arithmetic between LatLngFromPoint and PointFromLatLng (both libm, not modelled)
+      let (mkLat, mLat) := snapDegreeCoord e inLat
+      let (mkLng, mLng) := snapDegreeCoord e inLng
       let prop := firstSome [
         if !(finite3 q && finite3 site) then some "snapi-not-finite" else none,
         if movedTooFar p q r then some "snap-radius" else none,
         -- q must coincide (to 2^-49) with the grid site recomputed from integer coordinates
         if klat.natAbs > 90 * 10 ^ e || klng.natAbs > 180 * 10 ^ e then some "snapi-off-grid" else none,
         if dist2 q site > p2 98 then some "snapi-off-grid" else none]
-      -- only the radius is modelled (SnapPoint uses libm)
-      pure (verdictP [showF64 (minSnapRadiusForExponent e)] [showF64 r] prop)
+      pure (verdictP [showF64 (minSnapRadiusForExponent e), toString mkLat, toString mkLng, showF64 mLat, showF64 mLng,
+                      ":".intercalate (showV3 site)]
+                     [showF64 r, toString klat, toString klng, showF64 outLat, showF64 outLng, ":".intercalate (showV3 q)] prop)
+    | _ => pure "propfail impl-output-arity"
+  | "c20scaled", [tol] => do
+    let tol ← parseF64? tol
+    match res with
+    | [c] =>
+      let c ← parseF64? c
+      -- ChordAngleFromAngle(x) = (2 sin(x/2))²,  x = scaleFactor · max(tol, minTol)  (bit-exact), sin by enclosure
+      let x := scaledToleranceArg tol
+      let h := rat x / 2
+      let lo := 2 * (sinUB h - h ^ 11 / 39916800)      -- the next Taylor term makes it a lower bound
+      let hi := 2 * sinUB h
+      let v := rat c
+      pure (if c.isFinite && lo * lo * (1 - p2 48) ≤ v && v ≤ hi * hi * (1 + p2 48) then "ok"
+            else "diff arg=" ++ showF64 x)
     | _ => pure "propfail impl-output-arity"
   | "c20rad", [k, n] => do
     let n ← parseNat? n
